@@ -14,8 +14,11 @@ structure DState where
   outs : List (Ty × GenOut) := []
   sys  : Sys := {}
   widx : Index := []           -- stream wds: the stub ambient index
+  wpols : List Res := []       -- stream wds: the stub authorization policies
   wsrv : Srv := {}             -- stream wds: the ztunnel connection
-  wheld : Held := []           -- stream wds: what the delta client holds
+  wheld : Held := []           -- stream wds: what the delta client holds of the Address type
+  wlheld : Held := []          -- ... of the Workload type
+  waheld : Held := []          -- ... of the Authorization type
 
 def lookupOut (outs : List (Ty × GenOut)) (t : Ty) : GenOut :=
   match outs.find? (fun p => p.1 == t) with
@@ -80,6 +83,42 @@ def normClient (c : Client) : Client :=
 @[noinline] def normSys (y : Sys) : Sys :=
   { y with ssrv := { y.ssrv with st := normalize y.ssrv.st }, dsrv := { y.dsrv with st := normalize y.dsrv.st } }
 
+def DState.heldOf (ds : DState) (t : Ty) : Held := if t = .wl then ds.wlheld else ds.wheld
+
+def DState.setHeld (ds : DState) (t : Ty) (h : Held) : DState :=
+  if t = .wl then { ds with wlheld := h } else { ds with wheld := h }
+
+/-- Stream wds: a delta request for the Address / Workload type. -/
+def wreqD (ds : DState) (t : Ty) (sub unsub init nk : String) : DState × String :=
+  -- `held`: a conformant (re)connecting client reports everything it holds
+  -- `heldx`: ... with versions this server never produced (nothing may be skipped)
+  let cur := ds.heldOf t
+  let retained := if init == "held" then sortHeld cur
+    else if init == "heldx" then (sortHeld cur).map (fun r => (r.1, r.2 + 1000000)) else []
+  let r : DReq := { ty := t, sub := decList sub, unsub := decList unsub, init := names retained,
+                    nonce := resolveNonce ds.wsrv.st t nk, err := none }
+  match wdsProcessT t ds.widx ds.wsrv r retained with
+  | none => (ds, "crash")
+  | some (v, w) =>
+    let v := { v with st := normalize v.st }
+    let held := match w with
+      | some x => applyDelta cur { resources := x.resources, removed := x.removed }
+      | none => cur
+    ({ ds with wsrv := v }.setHeld t held, s!"{showWires w.toList} | {showStateN v.st}")
+
+/-- Stream wds: `pushConnectionDelta` for updated addresses: the Address type, then the Workload
+    type (the Authorization generator skips a push without policy keys); stops at a failed send. -/
+def wpushD (ds : DState) (upd : String) : DState × String :=
+  let r : WReq := { isReq := false, updated := decList upd }
+  let x := wdsPushOneT .addr ds.widx ds.wsrv r
+  let y := if x.2.2 then (x.1, none, true) else wdsPushOneT .wl ds.widx x.1 r
+  let v := { y.1 with st := normalize y.1.st }
+  let app := fun (h : Held) (w : Option Wire) => match w with
+    | some w => applyDelta h { resources := w.resources, removed := w.removed }
+    | none => h
+  ({ ds with wsrv := v, wheld := app ds.wheld x.2.1, wlheld := app ds.wlheld y.2.1 },
+   s!"{showWires (x.2.1.toList ++ y.2.1.toList)} | {showStateN v.st}")
+
 def stepD (ds : DState) (toks : List String) : DState × String :=
   match toks with
   | ["case", _, "equivd"] => ({ sys := { deltaCds := true } }, "ok")
@@ -106,31 +145,34 @@ def stepD (ds : DState) (toks : List String) : DState × String :=
     let idx : Index := if ws == "-" then [] else (ws.splitOn ",").filterMap fun e =>
       match e.splitOn ":" with
       | [n, a, l, v] => some { name := dec n, alias := dec a, onNode := tokBool l, ver := v.toNat?.getD 0 }
+      -- flags: x = the alias is not indexed (host network), s = a Service address
+      | [n, a, l, v, fl] => some { name := dec n, alias := dec a, onNode := tokBool l, ver := v.toNat?.getD 0,
+                                   aliasIndexed := !fl.contains 'x', isSvc := fl.contains 's' }
       | _ => none
     ({ ds with widx := idx }, "ok")
-  | ["wreq", sub, unsub, init, nk] =>
-    -- `held`: a conformant (re)connecting client reports everything it holds
-    -- `heldx`: ... with versions this server never produced (nothing may be skipped)
-    let retained := if init == "held" then sortHeld ds.wheld
-      else if init == "heldx" then (sortHeld ds.wheld).map (fun r => (r.1, r.2 + 1000000)) else []
-    let r : DReq := { ty := .addr, sub := decList sub, unsub := decList unsub, init := names retained,
-                      nonce := resolveNonce ds.wsrv.st .addr nk, err := none }
-    match wdsProcess ds.widx ds.wsrv r retained with
-    | none => (ds, "crash")
-    | some (v, w) =>
-      let v := { v with st := normalize v.st }
-      let held := match w with
-        | some x => applyDelta ds.wheld { resources := x.resources, removed := x.removed }
-        | none => ds.wheld
-      ({ ds with wsrv := v, wheld := held }, s!"{showWires w.toList} | {showStateN v.st}")
+  | ["wpol", ps] => ({ ds with wpols := (decRes ps).mergeSort (fun a b => !(b.1 < a.1)) }, "ok")
+  | ["wfail", v] => ({ ds with wsrv := { ds.wsrv with fail := tokBool v } }, "ok")
+  | ["wreq", sub, unsub, init, nk] => wreqD ds .addr sub unsub init nk
+  | ["wlreq", sub, unsub, init, nk] => wreqD ds .wl sub unsub init nk
   | ["wreconnect"] => ({ ds with wsrv := { ctr := ds.wsrv.ctr } }, "ok")
-  | ["wpush", upd] =>
-    let (v, w) := wdsPushOne ds.widx ds.wsrv { isReq := false, updated := decList upd }
-    let v := { v with st := normalize v.st }
-    let held := match w with
-      | some x => applyDelta ds.wheld { resources := x.resources, removed := x.removed }
-      | none => ds.wheld
-    ({ ds with wsrv := v, wheld := held }, s!"{showWires w.toList} | {showStateN v.st}")
+  | ["wpush", upd] => wpushD ds upd
+  | ["wareq", sub, unsub, init, nk] =>
+    let retained := if init == "held" then sortHeld ds.waheld else []
+    let r : DReq := { ty := .wauth, sub := decList sub, unsub := decList unsub, init := names retained,
+                      nonce := resolveNonce ds.wsrv.st .wauth nk, err := none }
+    match wauthProcess ds.wpols ds.wsrv r with
+    | none => (ds, "crash")
+    | some (v, ws) =>
+      let v := { v with st := normalize v.st }
+      let held := ws.foldl (fun h x => applyDelta h { resources := x.resources, removed := x.removed }) ds.waheld
+      ({ ds with wsrv := v, waheld := held }, s!"{showWires ws} | {showStateN v.st}")
+  | ["wapush", upd, forced] =>
+    let x := wauthPush ds.wpols (tokBool forced) (decList upd) ds.wsrv
+    let v := { x.1 with st := normalize x.1.st }
+    let held := match x.2.1 with
+      | some w => applyDelta ds.waheld { resources := w.resources, removed := w.removed }
+      | none => ds.waheld
+    ({ ds with wsrv := v, waheld := held }, s!"{showWires x.2.1.toList} | {showStateN v.st}")
   | ["pushall"] => let y := normSys (IstioModel.C03.step ds.sys .pushall); ({ ds with sys := y }, showSys y)
   | ["reconnect"] => let y := normSys (IstioModel.C03.step ds.sys .reconnect); ({ ds with sys := y }, showSys y)
   | ["pushcut", k] => let y := normSys (IstioModel.C03.step ds.sys (.pushcut (k.toNat?.getD 0))); ({ ds with sys := y }, showSys y)
